@@ -296,7 +296,15 @@ func (f *File) AddChild(child Box, boxStartPos uint64) {
 			f.AddSidx(box)
 		} else {
 			currSeg := f.Segments[len(f.Segments)-1]
-			currSeg.AddSidx(box)
+			if lastFrag := currSeg.LastFragment(); lastFrag != nil && lastFrag.Mdat != nil {
+				// A sidx box after a complete fragment belongs to the (sub)segment that follows it.
+				// Start that segment here, so that the sidx box stays in front of its fragments.
+				newSeg := &MediaSegment{StartPos: boxStartPos}
+				newSeg.AddSidx(box)
+				f.AddMediaSegment(newSeg)
+			} else {
+				currSeg.AddSidx(box)
+			}
 		}
 	case *StypBox:
 		// Starts a new segment
